@@ -190,8 +190,9 @@ class MemTransport(asyncio.Transport):
 
     def eof_deliverable(self) -> bool:
         p = self.peer
+        # a transport whose reading is paused has no reader registered: it cannot notice the FIN either
         return (p is not None and p.eof_pending and not p.wire and not self.peer_eof_seen
-                and not self._lost_called and not self._closing)
+                and not self._lost_called and not self._closing and not self._paused)
 
     def deliver_eof(self):
         """Env event: the peer's FIN arrives (all its data was delivered before)."""
